@@ -3,7 +3,7 @@
 import importlib, json, os, sys
 sys.path.insert(0, os.path.dirname(os.path.abspath(__file__)))
 CLAIMED = {
- "C01": ("6/C01", "Refinement of every pointer flip against a sequential reference model over seeded schedules of 2-4 committers (threads on one handle, separate handles, mixed), local and CAS-S3, fine/coarse/frozen clocks. Sampling, not proof: a clean batch is evidence over the explored interleavings."),
+ "C01": ("6/C01", "Refinement of every pointer flip against a sequential reference model over seeded schedules of 2-4 committers (threads on one handle with line-level pre-emption, separate handles, mixed), local and CAS-S3, fine/coarse/frozen clocks, targeted holds that force a stale base, and a committer process killed mid-commit. Sampling, not proof: a clean batch is evidence over the explored interleavings."),
  "C02": ("6/C02", "Every read's result is compared with the committed snapshots current during its flip interval, over seeded schedules of readers x writers; sampling of interleavings at storage-operation granularity."),
  "C03": ("6/C03", "Process death injected before each storage-level seam call of each operation type (quick samples k, thorough sweeps every k) on seeded histories; reopen, read, append and GC checked after each crash. Exhaustive only over the crash points of the sampled histories."),
  "C05": ("6/C05", "Seeded single-writer histories crossed with table-location spellings (absolute, relative, ./x, trailing slash, symlinked parent/root, names that are string prefixes of data/ and metadata/, S3 prefixes) and grace periods; each collection's deletions (from the event log) are checked against an independently computed reachable set plus open-transaction files, and old orphans must be gone. Sampling of histories; the spelling set is enumerated."),
@@ -19,7 +19,7 @@ CLAIMED = {
  "C20": ("6/C20", "Differential execution of seeded storage-operation sequences and seek/read programs against the local backend (reference) and the S3 backend over the in-memory model, plus per-request fault bursts within/beyond the retry budget and permanent codes. The sequence-equivalence half is reference-model checking; the fault half is the simulation proper."),
  "C18": ("6/C18", "Seeded interleavings of 2-3 creators/openers/first appenders over five initial states on local and CAS-S3; identity, schema and data of an existing table and uniqueness of initialisation checked at every flip and at the end."),
  "C19": ("6/C19", "Seeded interleavings of 2-3 lock contenders: local FileLock cycles with holder death, local commits with a killed process, S3 CAS lock cycles with pauses/stalls around the lease and heartbeat actors, and the polling provider's two stated guarantees. Real multi-process stress is out of technique and not done."),
- "C04": ("6/C04", "One fault (exception before/after effect, disk full, KeyboardInterrupt/SystemExit) at each storage call of each commit type plus selected double faults, on local, CAS-S3 and non-CAS S3; outcome-indexed oracle (success=>post, ambiguous=>pre|post and files kept, storage error=>pre, interrupt=>pre|post)."),
+ "C04": ("6/C04", "One fault (exception before/after effect, disk full, KeyboardInterrupt/SystemExit before/after each storage call AND at sampled line events inside datashard code via sys.settrace) at each point of each commit type plus selected double faults, on local, CAS-S3 and non-CAS S3; outcome-indexed oracle (success=>post, ambiguous=>pre|post and files kept, storage error=>pre, interrupt=>pre|post); usability afterwards checked from the same and from a fresh handle."),
 }
 NA = [
  {"property_id": "C12", "reason": "pure function of (table content, filter, API option): no schedule, clock, fault or history in the statement; deciding it is input enumeration against an evaluator (property-based testing), not simulation"},
